@@ -31,7 +31,8 @@ BUILD_FNS = ("process_dom_node", "table_to_render_tree", "tbody_to_render_tree",
              "render_table_tree", "render_table_row", "render_table_row_vert", "render_table_cell", "pending2",
              "render_tree_to_string", "RenderTree::render_with_context")
 IGNORED = {"head", "script", "style", "link", "meta", "hr"}
-SEQ_TYPES = ("RenderNode", "RenderTableRow", "RenderTableCell", "SubRenderer<", "RenderLine<", "TaggedLine<", "TaggedLineElement<")
+SEQ_TYPES = ("RenderNode", "RenderTableRow", "RenderTableCell", "SubRenderer<", "RenderLine<", "TaggedLine<", "TaggedLineElement<",
+             "RenderInput")  # RenderInput: the DOM children still to be converted (their order is document order)
 ORDER_OPS = ("rev", "reverse", "sort", "sort_by", "sort_by_key", "sort_unstable", "sort_unstable_by", "sort_unstable_by_key",
              "swap", "swap_remove", "pop", "pop_front", "pop_back", "push_front", "insert", "remove", "rotate_left",
              "rotate_right", "dedup", "retain", "drain", "split_off", "truncate")
